@@ -5,6 +5,7 @@ one JSON answer per line on stdout (`{"case":k,"r":…}` or `{"case":k,"bad":msg
 import Driver.Util
 import Driver.OpsNLV
 import Driver.OpsOrder
+import Driver.OpsIRI
 open Lean Driver
 
 def dispatch (op : String) (j : Json) : R Json :=
@@ -12,6 +13,8 @@ def dispatch (op : String) (j : Json) : R Json :=
   | "nlv" => opNLV j
   | "nlvEquals" => opNLVEquals j
   | "order" => opOrder j
+  | "iriEquals" => opIriEquals j
+  | "irisContains" => opIrisContains j
   | _ => .error s!"unknown op {op}"
 
 partial def loop (h : IO.FS.Stream) (out : IO.FS.Stream) : IO Unit := do
